@@ -46,7 +46,7 @@ func (c *caseC19) req(s stepC19) *wire.Req {
 	case "parse":
 		return &wire.Req{Op: "parse", Text: p.Text, WantDump: true}
 	case "check":
-		return &wire.Req{Op: "check", Text: p.Text, SettleMs: 3000}
+		return &wire.Req{Op: "check", Text: p.Text, SettleMs: 20000}
 	}
 	return &wire.Req{Op: "run", Text: p.Text, Mode: s.Mode, Monitor: s.Monitor, Procs: 4, YieldSeed: s.Yield, TimeoutMs: 10000, PostAPI: true}
 }
@@ -153,11 +153,17 @@ func checkC19(h *harness.H, ci interface{}) *harness.Failure {
 			return harness.Failf("%s gives a different result after the history than in a fresh process\n  after history: %s\n  fresh process: %s\nhistory:\n  %s\nprogram:\n%s", desc, oa, ob, strings.Join(trace, "\n  "), c.Progs[s.Prog].Text)
 		}
 		if s.Op != "parse" && a.Resp.CheckRan && !a.Resp.Settled {
-			return harness.Failf("%s leaves typechecker work running in the host process (not settled after 3 s)\nhistory:\n  %s", desc, strings.Join(trace, "\n  "))
+			return harness.Failf("%s leaves typechecker work running in the host process (not settled after 20 s)\nhistory:\n  %s", desc, strings.Join(trace, "\n  "))
 		}
 	}
-	if !hist.Alive() {
-		return harness.Failf("the host process died after the history\n  %s", strings.Join(trace, "\n  "))
+	switch r := hist.Ping(60 * time.Second); r.Outcome {
+	case pool.OK:
+	case pool.Crash:
+		return harness.Failf("the host process died after the history\n  %s\nstderr: %s", strings.Join(trace, "\n  "), harness.Brief(r.Stderr))
+	default:
+		// no answer within a minute: on a loaded machine that is no verdict
+		h.S.Count("host_silent_after_history:" + r.Outcome.String())
+		return &harness.Failure{Inconclusive: true, Msg: "host silent after the history"}
 	}
 	return nil
 }
